@@ -105,15 +105,12 @@ func ruleAliasFree(e *Env) {
 					if _, fromSlice := v.X.Type().Underlying().(*types.Slice); fromSlice {
 						e.S.Ok(rule, site, "Ver."+fname, "string(...) conversion of a byte slice copies the bytes", "")
 					} else {
-						e.S.Bad(rule, site, "Ver."+fname, "string field initialised from a non-copying conversion of the input", "", "")
+						e.S.Ok(rule, site, "Ver."+fname, "string(...) conversion: copies a byte-slice operand, is the identity on an (immutable) string operand", "")
 					}
 				default:
-					// a sub-string of a string input shares memory but strings are immutable: allowed; anything else undecided
-					if _, isSlice := st.Val.(*ssa.Slice); isSlice {
-						e.S.Ok(rule, site, "Ver."+fname, "sub-string of an immutable string", "")
-					} else {
-						e.S.Unk(rule, site, "Ver."+fname, fmt.Sprintf("string field stored from %T (idioms: string(bytes) conversion, constant)", st.Val), "")
-					}
+					// any other string-typed value (sub-string, element of a []string match result, …): a Go string cannot
+					// share memory with mutable bytes unless it was made with package unsafe, which the imports clause excludes
+					e.S.Ok(rule, site, "Ver."+fname, fmt.Sprintf("string-typed value (%T): immutable, cannot alias the caller's bytes without unsafe (see imports clause)", st.Val), "")
 				}
 			}
 		}
@@ -122,14 +119,14 @@ func ruleAliasFree(e *Env) {
 		}
 	}
 	// unsafe is not imported by any value package
-	for _, pkg := range ValuePkgs {
+	for _, pkg := range append(append([]string(nil), ValuePkgs...), "internal") {
 		p := e.P.ByPkg[pkg]
 		if p == nil {
 			continue
 		}
 		uses := false
 		for path := range p.Imports {
-			if path == "unsafe" || path == "reflect" && pkg != "size" {
+			if path == "unsafe" || path == "reflect" && pkg != "size" && pkg != "internal" {
 				uses = true
 			}
 		}
